@@ -104,6 +104,10 @@ class FunctionExtractor:
         self.rebound = set()      # names reassigned by columnize (their .shape is no longer the argument's)
         self.handled = set()      # id() of Call nodes consumed by the grammar
         self.stored = {}          # name -> how it was (re)assigned so far: asarray | flatten | other
+        self.used_targets = set()
+        self.pending_targets = set()  # names assigned from a local helper call: usable as lengths if the helper returns bindings
+        self.dim_alias = {}       # local name -> the dimension term it stands for (n = -1 if k is None else k)
+        self.return_names = None  # names returned by a top-level `return a` / `return a, b` (helpers that return lengths)
         self.last_check_line = 0
         self.returns = []         # line numbers of return statements
         a = fn.args
@@ -121,6 +125,11 @@ class FunctionExtractor:
                 and e.operand.value == 1):
             return "DAny"
         if isinstance(e, ast.Name):
+            if e.id in self.dim_alias:
+                return self.dim_alias[e.id]
+            if e.id in self.pending_targets:
+                self.used_targets.add(e.id)
+                return 'DVar "%s"' % e.id
             if e.id not in self.bound:
                 _err(self.path, e, "shape dimension `%s` is not bound by an earlier check of this function" % e.id)
             return 'DVar "%s"' % e.id
@@ -357,9 +366,16 @@ class FunctionExtractor:
                     return (e.id, "plain" if how in (None, "asarray") else ("flat" if how == "flatten" else None))
                 return (None, None)
             star = any(isinstance(a, ast.Starred) for a in x.args) or any(k.arg is None for k in x.keywords)
+            targets = []
+            if isinstance(st, ast.Assign) and st.value is x and len(st.targets) == 1 and wrap is None:
+                t = st.targets[0]
+                if isinstance(t, ast.Name):
+                    targets = [t.id]
+                elif isinstance(t, ast.Tuple) and all(isinstance(e, ast.Name) for e in t.elts):
+                    targets = [e.id for e in t.elts]
             self.checks.append(("CALL", self.private[key], [state(a) for a in x.args],
-                                {k.arg: state(k.value) for k in x.keywords if k.arg}, not simple, star, x.lineno))
-            self.last_check_line = max(self.last_check_line, 0)
+                                {k.arg: state(k.value) for k in x.keywords if k.arg}, not simple, star, x.lineno, targets))
+            self.pending_targets.update(targets)
 
     def block(self, stmts, wrap=None):
         for st in stmts:
@@ -377,6 +393,22 @@ class FunctionExtractor:
             if isinstance(x, ast.Return):
                 self.returns.append(x.lineno)
         self.private_calls(st, wrap)
+        if isinstance(st, ast.Return) and wrap is None and st.value is not None:
+            v = st.value
+            if isinstance(v, ast.Name):
+                self.return_names = [v.id]
+            elif isinstance(v, ast.Tuple) and all(isinstance(e, ast.Name) for e in v.elts):
+                self.return_names = [e.id for e in v.elts]
+        # n = -1 if k is None else k   (a name for the "wildcard unless k is known" dimension)
+        if (isinstance(st, ast.Assign) and len(st.targets) == 1 and isinstance(st.targets[0], ast.Name)
+                and isinstance(st.value, ast.IfExp) and wrap is None):
+            try:
+                term = self.dim(st.value)
+            except ExtractError:
+                term = None
+            if term is not None and term.startswith("DVarOrAny"):
+                self.dim_alias[st.targets[0].id] = term
+                return
         sc = self.stmt_check(st)
         if sc:
             call, target = sc
@@ -569,6 +601,10 @@ def extract_module(modname, path):
     # module-private helpers: module-level `_f` and methods `_m` of a class (called as self._m / cls._m)
     private_fns = {st.name: modname + "." + st.name for st in tree.body
                    if isinstance(st, (ast.FunctionDef, ast.AsyncFunctionDef)) and is_private(st.name)}
+    # every module-level function can be a delegate: an argument passed on unchanged inherits the callee's checks
+    local_fns = {st.name: modname + "." + st.name for st in tree.body
+                 if isinstance(st, (ast.FunctionDef, ast.AsyncFunctionDef))}
+    returns_of = {}
     private_methods = {}
     for c in tree.body:
         if isinstance(c, ast.ClassDef):
@@ -586,11 +622,13 @@ def extract_module(modname, path):
                         q = q + "." + ch[-1]
                 if q in out:
                     _err(path, st, "duplicate definition of %s" % q)
-                table = dict(private_fns)
+                table = dict(local_fns)
+                table.pop(st.name if cls is None else None, None)     # not itself
                 if cls is not None:
                     table.update(private_methods.get(cls, {}))
                 fx = FunctionExtractor(path, helpers, st, private=table, cls=cls)
                 out[q] = fx.run()
+                returns_of[q] = fx.return_names
                 ps = [a.arg for a in st.args.posonlyargs + st.args.args]
                 if cls is not None and ps and ps[0] in ("self", "cls"):
                     ps = ps[1:]
@@ -614,72 +652,142 @@ def extract_module(modname, path):
                         if isinstance(y, ast.Call) and check_kind(y, helpers):
                             _err(path, y, "shape check inside a lambda")
     return resolve_private(path, out, params_of, set(private_fns.values()) |
-                           {q for m in private_methods.values() for q in m.values()})
+                           {q for m in private_methods.values() for q in m.values()}, returns_of)
 
 
 _TERM = re.compile(r'^(?P<pre>(?:IfPresent "(?P<opt>\w+)" \()?)(?P<kind>Check|CheckAny|Columnize|CheckFlat|CheckEach|NeedsShape) '
                    r'"(?P<arg>\w+)"(?P<rest>.*)$')
 
 
-def resolve_private(path, out, params_of, private):
-    """splice the checks that a module-private helper performs on arguments which are parameters of its caller into the
-    caller's contract (in program order), then drop the private helpers themselves: contracts are about the API"""
+def _patterns(term):
+    """(kind, arg, [patterns as lists of dim strings], binds?) of a Check / CheckAny term, else None"""
+    m = re.match(r'^(Check|CheckAny) "(\w+)" (.*) (None|\(Some "\w+"\))$', term)
+    if not m:
+        return None
+    body = m.group(3)
+    pats = re.findall(r'\[((?:D\w+(?: "[\w.]+"| \d+)?(?:; )?)*)\]', body if m.group(1) == "Check" else body[1:-1])
+    return m.group(1), m.group(2), [[d for d in p.split("; ") if d] for p in pats], m.group(4) != "None"
+
+
+def _implied(term, earlier):
+    """a later check of the same unchanged argument that binds nothing and accepts everything an earlier check accepts
+    (every earlier pattern is an instance of one of its patterns) can never fail: it adds nothing to the contract"""
+    t = _patterns(term)
+    if t is None or t[3]:
+        return False
+    for e in earlier:
+        pe = _patterns(e)
+        if pe is None or pe[1] != t[1]:
+            continue
+        if all(any(len(q) == len(p) and all(dq == "DAny" or dq == dp for dq, dp in zip(q, p)) for q in t[2]) for p in pe[2]):
+            return True
+    return False
+
+
+def resolve_private(path, out, params_of, private, returns_of):
+    """splice the checks that a same-module function (a module-private helper, or a public function the caller delegates
+    to) performs on arguments which are PARAMETERS of its caller, passed on unchanged, into the caller's contract at the
+    call (program order); a check that repeats an earlier one of the caller verbatim adds nothing and is not repeated.
+    Length names bound by the callee are bound in the caller's contract (renamed when the callee returns them and the
+    caller assigns them).  Private helpers are then dropped as entries: contracts are about the API."""
     done = {}
+    binder = re.compile(r'\(Some "(\w+)"\)')
+    user = re.compile(r'DVar(?:OrAny)? "([\w.]+)"')
 
     def resolve(q, stack=()):
         if q in done:
             return done[q]
         if q in stack:
-            raise ExtractError("%s: recursive private helpers %s" % (path, q))
+            raise ExtractError("%s: recursive local calls through %s" % (path, q))
         res = []
         for item in out[q]:
             if isinstance(item, str):
                 res.append(item)
                 continue
-            _, callee, pos, kws, conditional, star, line = item
+            _, callee, pos, kws, conditional, star, line, targets = item
             if callee not in out:
-                raise ExtractError("%s:%d: private helper %s not found" % (path, line, callee))
+                raise ExtractError("%s:%d: local function %s not found" % (path, line, callee))
             inner = resolve(callee, stack + (q,))
+            ret = returns_of.get(callee)
+            if targets and any(t in (user.findall(" ".join(x for x in out[q] if isinstance(x, str)))) for t in targets):
+                # the caller uses the assigned names as lengths: the callee must return exactly its bound names
+                if not ret or len(ret) != len(targets):
+                    raise ExtractError("%s:%d: lengths taken from %s, which does not return bound names" % (path, line, callee))
             if not inner:
                 continue
             if star:
-                raise ExtractError("%s:%d: star-arguments to the checking private helper %s" % (path, line, callee))
+                raise ExtractError("%s:%d: star-arguments to the checking local function %s" % (path, line, callee))
             ps, kwonly = params_of[callee]
             amap = {}
             for p, st_ in zip(ps, pos):
                 amap[p] = st_
             for k, st_ in kws.items():
                 amap[k] = st_
-            kept = []
+            rename = dict(zip(ret, targets)) if (ret and targets and len(ret) == len(targets)) else {}
+            kept, bound_here = [], set()
             for term in inner:
                 if term.startswith("CheckSame"):
-                    raise ExtractError("%s:%d: same-shape check inside the private helper %s" % (path, line, callee))
+                    m2 = re.match(r'^CheckSame "(\w+)" "(\w+)"$', term)
+                    a, o = (amap.get(m2.group(1), (None, None)), amap.get(m2.group(2), (None, None)))
+                    if a[0] is None and o[0] is None:
+                        continue
+                    if a[0] is None or o[0] is None or a[1] != "plain" or o[1] != "plain":
+                        raise ExtractError("%s:%d: same-shape check of %s on a value that is not an unchanged argument" % (path, line, callee))
+                    kept.append('CheckSame "%s" "%s"' % (a[0], o[0]))
+                    continue
                 m = _TERM.match(term)
                 if not m:
-                    raise ExtractError("%s:%d: cannot re-target %r of private helper %s" % (path, line, term, callee))
+                    raise ExtractError("%s:%d: cannot re-target %r of %s" % (path, line, term, callee))
                 name, mode = amap.get(m.group("arg"), (None, None))
                 if name is None:
-                    continue          # the helper checks a value computed by the caller, not one of its arguments
-                if '(Some "' in term or "DVar" in term:
-                    raise ExtractError("%s:%d: private helper %s binds / uses length names" % (path, line, callee))
+                    continue          # the callee checks a value computed by the caller, not one of its arguments
                 if m.group("opt") and m.group("opt") != m.group("arg"):
                     raise ExtractError("%s:%d: optional check on another name in %s" % (path, line, callee))
+                rest = m.group("rest")
+                for u in user.findall(rest):
+                    if u.startswith("self."):
+                        continue
+                    if u not in bound_here:
+                        raise ExtractError("%s:%d: %s uses the length `%s` bound by a check that is not about an argument of the caller"
+                                           % (path, line, callee, u))
+                for b in binder.findall(rest):
+                    bound_here.add(b)
+                for old, new in rename.items():
+                    rest = rest.replace('"%s"' % old, '"%s"' % new)
                 if mode == "flat":
-                    if m.group("kind") != "Check" or m.group("pre") or not m.group("rest").endswith(" None"):
+                    if m.group("kind") != "Check" or m.group("pre") or not rest.endswith(" None"):
                         raise ExtractError("%s:%d: %s of a flattened argument in %s" % (path, line, m.group("kind"), callee))
-                    kept.append('CheckFlat "%s"%s' % (name, m.group("rest")[:-len(" None")]))
+                    kept.append('CheckFlat "%s"%s' % (name, rest[:-len(" None")]))
                 else:
                     pre = m.group("pre").replace('"%s"' % m.group("arg"), '"%s"' % name)
-                    kept.append('%s%s "%s"%s' % (pre, m.group("kind"), name, m.group("rest")))
+                    kept.append('%s%s "%s"%s' % (pre, m.group("kind"), name, rest))
+            if targets and rename == {} and any(t in user.findall(" ".join(x for x in out[q] if isinstance(x, str))) for t in targets):
+                raise ExtractError("%s:%d: lengths taken from %s cannot be matched with its bound names" % (path, line, callee))
+            if kept and conditional and callee not in private:
+                continue   # a public function called under a condition keeps its own entry; nothing is inherited
             if kept and conditional:
-                raise ExtractError("%s:%d: private helper %s, which checks argument shapes, is called under a conditional / "
-                                   "inside a compound statement" % (path, line, callee))
-            res.extend(kept)
+                raise ExtractError("%s:%d: %s, which checks argument shapes, is called under a conditional / inside a compound "
+                                   "statement" % (path, line, callee))
+            # names bound by the callee must not silently capture a different binding of the caller
+            mine = set(binder.findall(" ".join(res)))
+            for term in kept:
+                if term in res or _implied(term, res):
+                    continue          # repetition (or weakening) of an earlier check of the same argument
+                clash = set(binder.findall(term)) & mine
+                if clash:
+                    raise ExtractError("%s:%d: %s re-binds the length name(s) %s of its caller" % (path, line, callee, sorted(clash)))
+                res.append(term)
+        # a name assigned from a helper call and used as a length must have been bound by the spliced checks
         done[q] = res
         return res
 
     for q in list(out):
         resolve(q)
+    for q, terms in done.items():
+        bound = set(binder.findall(" ".join(terms)))
+        for u in user.findall(" ".join(terms)):
+            if not u.startswith("self.") and u not in bound:
+                raise ExtractError("%s: %s uses the length `%s`, which no check of its contract binds" % (path, q, u))
     return {q: done[q] for q in out if q not in private}
 
 
